@@ -392,7 +392,8 @@ theorem convVirtual_accepts (c : Ctx) (name : Str) (virt props : List Property) 
   exact convDecl_accepts c [] false virt h.1 _ (by simp [okDecl, okNested, h.2])
 
 /-- a method within the language: request given, its fields (and the response's) valid, a verb,
-every `:name` path part names a request field and no literal part holds one of `{ } * :` -/
+every `:name` path part names a request field and no literal part holds one of `{ } * :`; a list
+method has a list-shaped response -/
 def okMethod (c : Ctx) (bp : Option Str) (m : Method) : Bool :=
   match m.request with
   | none => false
@@ -400,7 +401,9 @@ def okMethod (c : Ctx) (bp : Option Str) (m : Method) : Bool :=
     okProps c req &&
     (match m.response with | none => true | some res => okProps c res) &&
     decide (m.verb ≠ .unspecified) &&
-    decide ((rewritePath req (resolvedPath bp m)).2 = 0)
+    decide ((rewritePath req (resolvedPath bp m)).2 = 0) &&
+    -- a list method (request takes `j5.list.v1.QueryRequest`) answers one array of objects
+    (!isListRequest c req || listShaped m.response)
 
 def okService (c : Ctx) (s : Service) : Bool := s.name.isSome && s.methods.all (okMethod c s.basePath)
 
@@ -412,7 +415,7 @@ theorem walkMethod_accepts (c : Ctx) (bp : Option Str) (m : Method) (h : okMetho
   | none => simp [hr] at h
   | some req =>
     simp only [hr, Bool.and_eq_true] at h
-    obtain ⟨⟨⟨h1, h2⟩, _⟩, _⟩ := h
+    obtain ⟨⟨⟨⟨h1, h2⟩, _⟩, _⟩, _⟩ := h
     cases hs : m.response with
     | none => simp [convVirtual_accepts c _ [] req none (by simpa using h1)]
     | some res =>
@@ -428,13 +431,32 @@ theorem convMethod_accepts (c : Ctx) (bp : Option Str) (m : Method) (h : okMetho
   | none => simp [hr] at h
   | some req =>
     simp only [hr, Bool.and_eq_true, decide_eq_true_eq] at h
-    obtain ⟨⟨⟨_, _⟩, hv⟩, hp⟩ := h
+    obtain ⟨⟨⟨⟨_, _⟩, hv⟩, hp⟩, _⟩ := h
     rw [walkMethod_node c bp m req hr] at hn
     simp only [Option.some.injEq] at hn
     subst hn
     unfold convMethod
     simp only [hr, hv, if_false]
     simp [hp]
+
+theorem sum_zero_of_forall' (l : List Nat) (h : ∀ x ∈ l, x = 0) : l.sum = 0 := by
+  induction l with
+  | nil => rfl
+  | cons a rest ih =>
+    simp only [List.sum_cons]
+    rw [h a (by simp), ih (fun x hx => h x (List.mem_cons_of_mem _ hx))]
+
+theorem listMethodErr_accepts (c : Ctx) (bp : Option Str) (m : Method) (h : okMethod c bp m = true) :
+    listMethodErr c m = 0 := by
+  unfold okMethod at h
+  unfold listMethodErr
+  cases hr : m.request with
+  | none => rfl
+  | some req =>
+    simp only [hr, Bool.and_eq_true, Bool.or_eq_true, Bool.not_eq_true'] at h
+    obtain ⟨_, hl⟩ := h
+    simp only []
+    rcases hl with hl | hl <;> simp [hl]
 
 theorem foldl_errs_zero {α : Type} (f : α → Eff) (l : List α) (h : ∀ a ∈ l, (f a).errs = 0) :
     (l.foldl (fun e a => e ++ f a) ({} : Eff)).errs = 0 := by
@@ -470,7 +492,12 @@ theorem convService_accepts (c : Ctx) (s : Service) (h : okService c s = true) :
         obtain ⟨w, hw, hwn⟩ := List.mem_filterMap.mp hnode
         obtain ⟨m, hmm, rfl⟩ := List.mem_map.mp hw
         exact convMethod_accepts c _ m (hm m hmm) node hwn)
-    simp only [Eff.errs_append, hw, hb, when_errs, Eff.use_errs]
+    have hlist : (s.methods.map (listMethodErr c)).sum = 0 :=
+      sum_zero_of_forall' _ (by
+        intro x hx
+        obtain ⟨m, hmm, rfl⟩ := List.mem_map.mp hx
+        exact listMethodErr_accepts c _ m (hm m hmm))
+    simp only [Eff.errs_append, hw, hb, when_errs, Eff.use_errs, hlist]
     simp
 
 def okTopicNode (c : Ctx) (tn : TopicNode) : Bool :=
